@@ -31,14 +31,13 @@ CHECKS["C04"] = dict(
           dict(pkg="server", harness="VfC04_history2", reach=["end"], thorough=dict(skip=True),
                bounds="histories from the initial state: 2 election announcements by sessions A/B in any order with arbitrary non-zero 128-bit ids (through runElection), then one operation from either session stamped with an arbitrary id; the primary is computed by the harness with true 128-bit ordering"),
           dict(pkg="server", harness="VfC04_history3", reach=["end"], quick=dict(skip=True), bounds="as history2 with 3 announcements"),
-          dict(pkg="server", harness="VfC04_mixed4", reach=["end", "with-operation"], thorough=dict(skip=True),
+          dict(pkg="server", harness="VfC04_mixed4", reach=["end", "with-operation"],
                bounds="histories from the initial state of 4 steps, each an election announcement (A/B, arbitrary non-zero 128-bit id) or one operation (A/B, arbitrary stamp), in every interleaving (accepted operation - hand-over - stale operation ...); verdict after every operation"),
           dict(pkg="server", harness="VfC04_mixedLeave3", reach=["end", "with-operation", "departure"], thorough=dict(skip=True),
                bounds="as mixed with 3 steps and ONE departure of a session (deleteClient) before a symbolic step: the departure of the primary or of the standby changes neither the highest id learnt nor what the remaining session may do"),
           dict(pkg="server", harness="VfC04_mixedLeave4", reach=["end", "with-operation", "departure"], quick=dict(skip=True), bounds="as mixedLeave3 with 4 steps"),
           dict(pkg="server", harness="VfC04_concurrent", reach=["end"], validate=0, replay_attempts=3, opts=dict(unwind=16),
                bounds="two sessions announce different arbitrary non-zero 128-bit ids CONCURRENTLY (every schedule with up to 2 pre-emptive context switches), then each sends one operation stamped with its own id: only the higher id's session reaches the RIB (native replay: 200 000 rounds of real goroutines)"),
-          dict(pkg="server", harness="VfC04_mixed5", reach=["end", "with-operation"], quick=dict(skip=True), bounds="as mixed4 with 5 steps"),
           dict(pkg="server", harness="VfC04_doModify3", load=["server"], quick=dict(skip=True), bounds="as doModify with a session table {A,B,C} and batches of 1-3 operations")],
     assumptions=["RIB effect observed through next-hop ADD operations in the default network instance (the RIB's own behaviour is C01's)"],
     level_text="Bounded symbolic execution of doModify/modifyEntry/checkElectionForModify from an arbitrary session table and election state: for every id triple (operation, session, server) the solver decides whether the RIB was reached.",
@@ -52,7 +51,7 @@ CHECKS["C08"] = dict(
           dict(pkg="rib", harness="VfC08_flush_big", reach=["end", "pre-built"], opts=dict(only=["C08:", "C01:", "C03:"]),
                bounds="scale: the large pre-state of VfRIB_big (16 next-hops, 8 groups, 12 top-level entries, cross-instance references, 9 held operations); Flush of {default}, {vrf} or both (VRF first); then one further symbolic next-hop / group operation"),
           dict(pkg="rib", harness="VfC08_flush_t", reach=["end", "pre-built"], quick=dict(skip=True), opts=dict(only=["C08:", "C01:", "C03:"]),
-               bounds="as flush_q with 2 groups (shared backup ids), 1 held operation, all top-level kinds, slots in either instance, every map iteration order (n<=3)"),
+               bounds="as flush_q with 2 groups (shared backup ids), all top-level kinds, every map iteration order (n<=3)"),
           dict(pkg="server", harness="VfC08_flushDecision", reach=["authorised", "no-instance", "missing-election-field", "unexpected-election-id", "zero-id", "lower-id", "unknown-instance"],
                bounds="all (instance selector, election field, 128-bit id, server election state) combinations; RIB with one entry per instance")],
     assumptions=[],
@@ -89,8 +88,8 @@ _B = dict(
     VfRIB_q1="two instances; canonical pre-state through the public API: 1 next-hop + 1 group (<=1 member) in the default instance, 1 IPv4/MPLS entry in either instance (optional cross-instance reference), all optional; then ONE fully symbolic operation (5 kinds x ADD/REPLACE/DELETE x any instance name x symbolic key/payload/references, group of <=2 members)",
     VfRIB_q2="as q1 but the third slot is a HELD operation (group or IPv4/MPLS entry with an unresolved reference) instead of an installed entry; step group has <=1 member",
     VfRIB_qNoFwd="forward references disallowed; pre-state 1 next-hop + 1 group; one symbolic operation",
-    VfRIB_t1="both forward-reference modes; pre-state 1 next-hop, 1 group, 1 top-level entry (IPv4/IPv6/MPLS), 1 held operation (ADD or REPLACE), each in either instance with optional payload fields; one symbolic operation with <=2 members",
-    VfRIB_t2="pre-state 1 next-hop, 1 group, 1 IPv4 entry; TWO consecutive symbolic operations",
+    VfRIB_t1="both forward-reference modes; pre-state 1 next-hop + 1 group (default instance), 1 top-level entry (IPv4/IPv6/MPLS, either instance), 1 held operation; one symbolic operation with <=2 members (about 4 x 10^5 paths)",
+    VfRIB_t2="pre-state 1 next-hop, 1 group; TWO consecutive symbolic operations (next-hop / group / IPv4 entry; ADD/REPLACE/DELETE; any instance name)",
     VfRIB_tOrder="pre-state 1 next-hop, 1 group, 2 held operations; one symbolic next-hop/group ADD/REPLACE; every iteration order of the held-operation map",
 )
 _B["VfRIB_q3"] = "pre-state 1 next-hop, 1 group, 1 stale held REPLACE (its key was deleted after it was held); one symbolic operation"
@@ -106,7 +105,7 @@ _RS = [("VfRIB_big", _B["VfRIB_big"])]
 _B["VfRIB_q3h"] = "the stale held REPLACE of q3 next to TWO further held operations (groups waiting for a next-hop - possibly the group the REPLACE waits for - or IPv4 entries, possibly the REPLACE's own key), then one symbolic next-hop / group ADD that starts a cascade; every iteration order of the held-operation map"
 _B["VfRIB_qW"] = "weighted groups: members carry an optional weight of ANY 64-bit value (0 included); pre-state 1 next-hop, 1 group (<=1 member), 1 held IPv4 entry; one symbolic group ADD/REPLACE/DELETE of <=2 distinct members; forward references allowed or disallowed"
 _RQ = [(h, _B[h]) for h in ("VfRIB_q1", "VfRIB_q2", "VfRIB_qNoFwd", "VfRIB_qx", "VfRIB_qo", "VfRIB_q3", "VfRIB_q3h", "VfRIB_qW")]
-_B["VfRIB_t1r"] = "as q1 plus a held operation (ADD or REPLACE) and optional payload fields everywhere (next-hop tag / pop-top-label, backup group, colour, metadata, weights); one symbolic operation with <=2 members"
+_B["VfRIB_t1r"] = "as q1 (IPv4 entries) with optional payload fields everywhere (next-hop tag / pop-top-label, backup group, metadata); one symbolic operation"
 _B["VfRIB_t3e"] = "histories from the EMPTY two-instance RIB: THREE consecutive fully symbolic operations (next-hop / group of <=1 member / IPv4 entry; ADD/REPLACE/DELETE; any instance name)"
 _RT = [(h, _B[h]) for h in ("VfRIB_t1", "VfRIB_t1r", "VfRIB_t2", "VfRIB_tOrder")]
 _RIBNOTE = "Trusted: go/ssa, gosym, z3, the Go models of candidateRIB/MergeStructInto (validated natively by TestVfModelAgreement on the modelled fields), the reference RIB in harness/rib/vf_ref.go. Payload = key, group reference (+instance), entry metadata, decapsulate-header, popped label stack, group members/weights/backup/colour, next-hop network-instance / pop-top-label / encapsulation headers / address / MAC / interface reference / IP-in-IP / pushed label stack / MPLS and UDPv6 encapsulation headers; other encap-header kinds, GRE, VNI, tunnel source address and enumerated labels in stacks are outside."
@@ -156,7 +155,7 @@ CHECKS["C16"] = dict(
           dict(pkg="rib", harness="VfC16_mirror_q1", reach=["end", "pre-built"], thorough=dict(skip=True), opts=dict(only=["C16:"]),
                bounds="as mirror_q with an installed IPv4/MPLS entry instead of the held operation (replaces and deletes of top-level entries)"),
           dict(pkg="rib", harness="VfC16_mirror_t", reach=["end", "pre-built"], quick=dict(skip=True), opts=dict(only=["C16:"]),
-               bounds="as mirror_q with all top-level kinds, slots in either instance, optional payload fields, groups of <=2 members"),
+               bounds="as mirror_q1 with all top-level kinds, optional payload fields, groups of <=2 members"),
           dict(pkg="rib", harness="VfC16_flush", reach=["end", "pre-built"], opts=dict(only=["C16:"]), bounds="notifications issued by Flush of {default}, {vrf}, both"),
           dict(pkg="rib", harness="VfC16_resolved", reach=["end", "back-to-back"], replay_attempts=5, opts=dict(only=["C16:"]), bounds="resolved-entry hook: ADD then DELETE of a symbolic IPv4/IPv6/MPLS entry, the consumer running after each change or only after both (back to back); snapshots checked for content at the moment of the change, privacy and stability"),
           dict(pkg="rib", harness="VfC16_resolvedCascade", reach=["end"], opts=dict(only=["C16:"]), bounds="resolved-entry hook for an IPv4 entry that was held (in either instance, waiting for a group of the default instance, implicit or explicit reference) and is installed by the cascade of the group's ADD: instance named in the notification and snapshot content"),
@@ -169,7 +168,7 @@ CHECKS["C07"] = dict(
     runs=[dict(pkg="rib", harness="VfC07_getRIB_q", reach=["end", "pre-built", "all"], thorough=dict(skip=True), opts=dict(only=["C07:"]),
                bounds="canonical pre-state (1 next-hop, 1 group, 1 IPv4/IPv6/MPLS entry, optional payload fields) in two instances; GetRIB of either instance with each of the 6 table filters; ALL compared with the union of the five per-table Gets; FromGetResponses over both instances compared with the reference"),
           dict(pkg="rib", harness="VfC07_getRIB_t", reach=["end", "pre-built", "all"], quick=dict(skip=True), opts=dict(only=["C07:"]),
-               bounds="as getRIB_q with 2 next-hops, 2 top-level entries, a held operation (must not be reported), groups of <=2 members, slots in either instance"),
+               bounds="as getRIB_q with 2 next-hops, a held operation (must not be reported), groups of <=2 members"),
           dict(pkg="rib", harness="VfC07_getRIB_p", reach=["end", "pre-built", "all"], opts=dict(only=["C07:"]),
                bounds="extended payload: 1 next-hop with one of 13 payload shapes (address, MAC, interface / subinterface reference, IP-in-IP, pushed label stack of 1-3 labels, all of them; symbolic valid content), 1 group, 1 IPv4/IPv6 entry with a decapsulate-header or 1 label entry with a popped stack of 1-2 labels; GetRIB of either instance with each of the 6 filters; every field and the ORDER of the stacks compared"),
           dict(pkg="rib", harness="VfC07_getRIB_eh", reach=["end", "pre-built", "all"], opts=dict(only=["C07:"]),
@@ -191,7 +190,7 @@ CHECKS["C13"] = dict(
           dict(pkg="client", harness="VfC13_recvViolation", reach=["end"], validate=0, replay_attempts=30, opts=dict(unwind=40),
                bounds="the REAL receive loop (Connect's sender / receiver goroutines on a scripted stream): 1-2 operations queued; the answer completes the last pending operation and also carries a result for an id never sent; AwaitConverged runs concurrently - every schedule with up to 2 pre-emptive context switches at synchronisation points; it never reports success"),
           dict(pkg="client", harness="VfC13_accounting_t", reach=["end", "pre-built", "await-ok", "await-errors"], quick=dict(skip=True),
-               bounds="as accounting_q with all five entry kinds, all three operation types and TWO consecutive responses (RIB-before-FIB sequences, duplicate terminal results, results after completion)")],
+               bounds="as accounting_q (1 operation queued before, IPv4 / group / MPLS kinds) with all three operation types and TWO consecutive responses (RIB-before-FIB sequences, duplicate terminal results, results after completion)")],
     assumptions=["responses are delivered to handleModifyResponse as the receiver goroutine does (errors recorded with addReadErr); goroutine scheduling of Connect is C14's subject",
                  "AwaitConverged is only called when it is specified to return (converged or errors recorded); otherwise isConverged is checked directly"],
     level_text="Bounded symbolic execution of the client's accounting (Q / handleModifyRequest / handleModifyResponse / clearPendingOp / isConverged / AwaitConverged) against a ghost model: every id is pending or completed exactly once for every symbolic id/status combination.",
@@ -206,7 +205,7 @@ CHECKS["C17"] = dict(
           dict(pkg="chk", harness="VfC17_getResponseLong", reach=["end"], bounds="Get response of FOUR next-hop entries over two network instances in every order (grouped / interleaved / revisited), symbolic indices; one wanted next-hop"),
           dict(pkg="chk", harness="VfC17_errorCounts", reach=["end"], bounds="error nil / ClientErr with 0-2 send and receive errors / other error; wanted count 0-3"),
           dict(pkg="chk", harness="VfC17_recvStatus", reach=["end"], thorough=dict(skip=True), bounds="ClientErr with 0-1 receive error (plain error or status with one of 3 codes incl. Unknown, 2 messages, optional details with 2 reasons) or a non-client error; wanted status likewise; AllowUnimplemented x IgnoreDetails"),
-          dict(pkg="chk", harness="VfC17_recvStatusT", reach=["end"], quick=dict(skip=True), bounds="as recvStatus with 0-2 receive errors, 5 codes, 3 messages, 3 reasons")],
+          dict(pkg="chk", harness="VfC17_recvStatusT", reach=["end"], quick=dict(skip=True), bounds="as recvStatus with 0-2 receive errors and 5 codes")],
     assumptions=["cmp.Equal + cmpopts.IgnoreFields + protocmp.Transform are modelled as typed structural equality skipping the ignored fields",
                  "grpc status values are modelled as {code, message, details}; keys in Get responses are non-zero / non-empty"],
     level_text="Bounded symbolic execution of the real checkers with a capturing testing.TB: 'fails iff the wanted item is absent' is decided for all symbolic ids/keys/instances/options.",
@@ -228,7 +227,7 @@ CHECKS["C18"] = dict(
           _c18("VfC18_label_3", "programs of 3 calls + 1, MPLS builder", "thorough"),
           _c18("VfC18_nhg_3", "programs of 3 calls + 1, group builder", "thorough"),
           _c18("VfC18_nh_3", "programs of 3 calls + 1, next-hop builder", "thorough"),
-          _c18("VfC18_client_4", "sequences of 4 queueing calls", "thorough")],
+          _c18("VfC18_client_3", "sequences of 3 queueing calls (as in the quick tier; 4 calls exceed 10^6 paths)", "thorough")],
     assumptions=["proto.Clone is modelled as a deep copy and proto.Equal as typed structural equality of the message graph"],
     level_text="Bounded symbolic execution over every program of L builder calls with symbolic arguments: the emitted message equals an independently built expected message, emitted messages are immune to later builder calls, ids and election-id stamping follow the documented rules.",
     level_note="Trusted: go/ssa, gosym (proto.Clone/Equal stubs), z3.")
@@ -238,8 +237,8 @@ CHECKS["C15"] = dict(
                bounds="intended and target RIB each built canonically with symbolic contents (1 next-hop, 1 group <=1 member, 1 IPv4/MPLS entry in either of two instances, all optional), optionally a third instance only the target has (one next-hop); Reconcile, operations applied to the target's real RIB in the documented order, result compared with the intended reference; second Reconcile must be empty; symbolic id base"),
           dict(pkg="rib/reconciler", harness="VfC15_reconcile_qx", load=["rib/reconciler"], reach=["end", "built"], opts=dict(only=["C15:"]),
                bounds="cross-instance references: on each side next-hop 1 in both instances, an optional group (symbolic id) in each instance, one optional IPv4 entry (symbolic prefix / group id) in either instance whose group instance is unset (its own instance) or explicit (either instance); Reconcile, apply in order, compare, second Reconcile empty"),
-          dict(pkg="rib/reconciler", harness="VfC15_reconcile_t", load=["rib/reconciler"], reach=["end", "built"], quick=dict(skip=True), opts=dict(only=["C15:"], budget_s=1500),
-               bounds="as reconcile_q with 2 next-hops, groups of <=2 members (make-before-break swaps), all three top-level kinds")],
+          dict(pkg="rib/reconciler", harness="VfC15_reconcile_t", load=["rib/reconciler"], reach=["end", "built"], quick=dict(skip=True), opts=dict(only=["C15:"]),
+               bounds="as reconcile_q with 2 next-hops per side (swaps of the group's next-hop), IPv4 entries")],
     assumptions=["LocalRIB targets only; RemoteRIB (gRPC Get + FromGetResponses) is covered by C07's FromGetResponses check, the transport is outside", "ConcreteXXXProto / candidateRIB / MergeStructInto / DeepCopy / DeepEqual are the models and structural stubs of DESIGN.md section 4"],
     level_text="Bounded symbolic execution of diff/Reconcile over two symbolic RIBs, followed by application of the emitted operations to the real target RIB: success of every operation, convergence to the intended contents and id allocation are decided for all symbolic contents.",
     level_note=_RIBNOTE)
